@@ -26,6 +26,8 @@ FLAGS_DASH = FlagParser.initialize(['--threadless', '--enable-web-server', '--en
 BIG = b'IN-big:' + b'0123456789' * 4
 FILES = {
     '/srv/a/a': b'IN-a', '/srv/a/b/a': b'IN-ba', '/srv/a/b/b': BIG, '/srv/a/e': b'',
+    '/srv/a/z.gz': b'plain-bytes-that-only-carry-a-gz-suffix', '/srv/a/t.tgz': b'T' * 30, '/srv/a/i.svgz': b'<svg/>',
+    '/srv/a/p.tar.gz': b'P' * 25, '/srv/a/n.txt': b'N' * 25,
     '/srv/ab/a': b'OUT-sibling-with-name-prefix', '/srv/aa': b'OUT-file-with-name-prefix', '/srv/a.b': b'OUT-dot-sibling',
     '/srv/b/a': b'OUT-srv-b-a', '/srv/e': b'OUT-srv-e', '/a': b'OUT-root-a', '/b/a': b'OUT-root-b-a', '/e': b'OUT-root-e', '/a/a': b'OUT-a-a',
 }
@@ -73,6 +75,7 @@ def fake_open(path, mode='r'):
 
 
 SP.open = fake_open
+_REAL_GUESS = SP.mimetypes.guess_type
 SP.mimetypes.guess_type = lambda p: ('text/plain', None)
 
 ALPHA = (47, 46, 97, 98, 37, 50, 101, 63)      # / . a b % 2 e ?
@@ -173,6 +176,40 @@ def static_vec(*chars):
     return static(*a)
 
 
+NAMED = ('n.txt', 'z.gz', 't.tgz', 'i.svgz', 'p.tar.gz', 'z.gz?x=1', 'n.txt')
+
+
+def static_named(k):
+    """Files whose NAME suggests an encoding (.gz, .tgz, .svgz): whatever Content-Encoding the reply announces, undoing it yields
+    exactly the file's bytes. Real mimetypes table, compression on (min length 20); concrete execution (NOT a solver claim): names
+    outside the 8-letter path alphabet of the symbolic obligations."""
+    begin()
+    SP.mimetypes.guess_type = _REAL_GUESS
+    try:
+        for i in range(k + 1):
+            name = NAMED[i]
+            h, out, td = _serve(FLAGS_GZ, b'/' + name.encode())
+            try:
+                m = refhttp.read_message(out, True)
+            except refhttp.Malformed as e:
+                return fail('reply for %s is malformed' % name, why=str(e))
+            if m['start'][1] != b'200':
+                return fail('file %s inside the static directory not served' % name, out=repr(out[:60]))
+            body = m['body']
+            hs = {kk: v for kk, _, v in m['headers']}
+            if hs.get(b'content-encoding') == b'gzip':
+                try:
+                    body = gzip.decompress(body)
+                except Exception as e:
+                    return fail('reply for %s announces gzip but the body is not gzip' % name, exc=repr(e))
+            want = FILES['/srv/a/' + name.split('?')[0]]
+            if body != want:
+                return fail('served bytes for %s do not decode to the file content' % name, got=repr(body[:30]), want=repr(want[:30]))
+    finally:
+        SP.mimetypes.guess_type = lambda p: ('text/plain', None)
+    return ok()
+
+
 GZIP_SEQ = ('b/b', 'b/b?', 'b/a', '../a', '../ab/a', 'b/..', 'a?b/b', './b/b', 'b/./b', 'b//b?x', 'a', 'b/b', 'e', 'b/a')
 
 
@@ -211,6 +248,8 @@ def obligations(tier):
         ln = 8 - v[::-1].index(0) if 0 in v else 8
     obs.append({'name': 'concrete.gzip', 'kind': 'concrete', 'fn': 'static_seq', 'cfg': {'gzip': True}, 'group': 'concrete',
                 'args_list': [[k] for k in range(len(GZIP_SEQ))], 'timeout': 60})
+    obs.append({'name': 'concrete.named', 'kind': 'concrete', 'fn': 'static_named', 'cfg': {}, 'group': 'concrete',
+                'args_list': [[k] for k in range(len(NAMED))], 'timeout': 60})
     obs.append({'name': 'static.trailing_slash_root.n3', 'fn': 'static', 'cfg': {'n': 3, 'trailing_slash_root': True}, 'timeout': 900})
     return obs
 
